@@ -12,8 +12,10 @@ from harness import core, par, render, tlaval, tlc
 from harness.drivers.c01 import done_states
 
 
-def scene_xml(sc, template=False):
+def scene_xml(sc, template=False, vector=False):
+  """`vector`: per-geom elasticities as ONE numeric vector in geom-id order (ground first) instead of a tuple of overrides."""
   body, tup, names = [], [], []
+  evec = [render.fl(sc['pelast'])]
   gi = 0
   for i, l in enumerate(sc['links'], 1):
     body.append(f'    <body name="L{i}" pos="{render.vec(l["pos"])}" quat="{render.vec(l["quat"])}">')
@@ -26,10 +28,13 @@ def scene_xml(sc, template=False):
                   + ('pos="0 0 0" quat="1 0 0 0"' if template else f'pos="{render.vec(g["lpos"])}" quat="{render.vec(g["lquat"])}"') +
                   ' mass="1"/>')
       tup.append(f'      <element objtype="geom" objname="{nm}" prm="{render.fl(g["elast"])!r}"/>')
+      evec.append(render.fl(g['elast']))
     body.append('    </body>')
   tup.append(f'      <element objtype="geom" objname="ground" prm="{render.fl(sc["pelast"])!r}"/>')
-  return ('<mujoco>\n  <compiler angle="radian"/>\n  <custom>\n    <tuple name="elasticity">\n' + '\n'.join(tup) +
-          '\n    </tuple>\n  </custom>\n  <worldbody>\n    <geom name="ground" type="plane" size="0 0 1" ' +
+  custom = ('    <tuple name="elasticity">\n' + '\n'.join(tup) + '\n    </tuple>' if not vector else
+            '    <numeric name="elasticity" data="' + ' '.join(repr(float(e)) for e in evec) + '"/>')
+  return ('<mujoco>\n  <compiler angle="radian"/>\n  <custom>\n' + custom +
+          '\n  </custom>\n  <worldbody>\n    <geom name="ground" type="plane" size="0 0 1" ' +
           f'pos="{render.vec(sc["plane"]["pos"])}" quat="{render.vec(sc["plane"]["quat"])}"/>\n' +
           '\n'.join(body) + '\n  </worldbody>\n</mujoco>\n')
 
@@ -43,7 +48,7 @@ def eval_case(case):
   # every other scene is loaded from a template document and its geom offsets are then set on the System itself
   # (sys.replace, as domain randomisation does): contact.get must use the System's fields
   template = case.get('mode') == 'replace'
-  xml = scene_xml(sc, template=template)
+  xml = scene_xml(sc, template=template, vector=bool(case.get('elast_vector')))
   try:
     sys = mjcf.loads(xml)
     if template:
@@ -85,7 +90,7 @@ def run(ctx):
   res = tlc.run('Contact', cfg, name='c10', dump=dump, seed=ctx.seed + 16, expect_ok=True, coverage=True)
   tlc.require_coverage(res, ['Compute'], 'c10')
   ctx.add_tlc(res, 'Contact.tla')
-  cases = [{'scene': s['scene'], 'out': s['out'], 'mode': 'replace' if i % 2 else 'xml'}
+  cases = [{'scene': s['scene'], 'out': s['out'], 'mode': 'replace' if i % 2 else 'xml', 'elast_vector': i % 4 >= 2}
            for i, s in enumerate(done_states(dump + '.dump'))]
   branches = {}
   nrows = 0
